@@ -156,6 +156,9 @@ def rank_body(cfg, history, observe=None):
                         else:
                             xin = x[:, m_ * (nin // M):(m_ + 1) * (nin // M)].to(dtype)
                             w_l = wts.to(dtype)
+                        if cfg.get('seq'):
+                            # the GPT-NeoX activation layout [seq, batch, hidden]: the same rows, three dimensions
+                            xin = xin.reshape(cfg['seq'], -1, xin.shape[-1]); w_l = w_l.reshape(cfg['seq'], -1, w_l.shape[-1])
                         out = mods[li](xin.clone().requires_grad_(True))
                         (out * w_l).sum().mul(float(cfg.get('grad_scale') or 1.0)).backward()
                 if cfg.get('grad_scale'):
